@@ -146,7 +146,7 @@ def uvl_value(g, depth=0):
     if k == "bool":
         return rng.random() < 0.5
     if k == "int":
-        return rng.choice([0, 1, -1, 7, 42, -300, 10**6, 2**70])
+        return rng.choice([0, 1, -1, 7, 42, -300, 10**6, 2**70, 2**53 + 1, 3**50, 10**22 + 7])
     if k == "float":
         return rng.choice([0.5, 1.25, -2.75, 3.0, 100.125, 0.1, -0.001, 12345.678, 0.0])
     if k == "str":
